@@ -32,6 +32,11 @@ np.seterr(all="ignore")
 IMPORTS = ("From Coq Require Import PrimFloat.\n"
            "From NpTdms Require Import Gen.NumpyPromote Model.ScaleGraph Model.ArrayHeap.\n")
 CASE_T = "props * props * props * rawdata * option value * nat * nat * option value"
+# file tie (Proofs/ScaleFile.v check_file_scaled): the bridge bytes -> typed values / property
+# dictionaries and the composed reads, evaluated on the very bytes npTDMS read
+FILE_IMPORTS = ("From Coq Require Import ZArith PrimFloat.\n"
+                "From NpTdms Require Import Base.Bytes Model.ScaleGraph Proofs.ScaleFile.\n")
+FILE_CASE_T = "bytes * bytes * option value * nat * nat * option value * bool * option value"
 RAW = L.RAW
 REAL = [d for d in L.NUMERIC if not d.startswith("complex")]
 DAQMX_DTYPES = list(L.DAQMX_TYPE_ID)
@@ -440,7 +445,12 @@ def run_case(run, case, stats):
         return "None" if isinstance(x, Raised) else "(Some %s)" % L.cvalue(x)
     term = "(%s, %s, %s, %s, %s, %d, %d, %s)" % (
         L.cprops(chan), L.cprops(group), L.cprops(root), L.crawdata(data, scalers), obs(e_full), o, l, obs(e_win))
-    return term, rep, key, e_full
+    plain = case["daqmx"] is None
+    fterm = "(%s, %s, %s, %d%%nat, %d%%nat, %s, %s, %s)" % (
+        H.chex(content), H.chex(b"/'g'/'c'"), obs(e_full), o, l, obs(e_win),
+        "true" if plain else "false",
+        obs(l_win) if plain and (isinstance(l_win, Raised) or l_win.dtype.kind != "c") else "None")
+    return term, rep, key, e_full, fterm
 
 
 def correspondence(run, terms):
@@ -449,7 +459,7 @@ def correspondence(run, terms):
     run.corr_errors(errors)
     run.cov["traces_validated_against_impl"] += len(cases) - len(bad)
     for i in bad[:3]:
-        _, rep, key, e_full = terms[i]
+        _, rep, key, e_full = terms[i][:4]
         rc, out = H.coq_print_terms(run.pid, IMPORTS, ["let '(ch, gr, fi, raw, _, _, _, _) := (%s) : %s in "
                                                       "(get_scaling ch gr fi, channel_data ch gr fi raw)"
                                                       % (terms[i][0], CASE_T)], tag="show%d" % i)
@@ -457,6 +467,29 @@ def correspondence(run, terms):
                       % (key, e_full), rep, kind="correspondence-broken",
                       theorem="Model.ScaleGraph.channel_data vs TdmsChannel[:]", actual=repr(e_full),
                       model=out[-3000:], no_input=True)
+
+
+def file_correspondence(run, terms, stats):
+    """Proofs/ScaleFile.v on the file BYTES: scaled_read_eager / scaled_window_eager /
+    scaled_read_lazy (reader models + bridge + scaling model) against channel[:] and
+    read_data(o, l) of TdmsFile.read / TdmsFile.open on the same bytes."""
+    picked = terms[:run.pick(160, 2000)]
+    cases = [t[4] for t in picked]
+    bad, errors = H.run_sharded(run.pid, FILE_IMPORTS, FILE_CASE_T, "check_file_scaled", cases, shard=12,
+                                tag="file")
+    run.corr_errors(errors)
+    run.cov["traces_validated_against_impl"] += len(cases) - len(bad)
+    stats["file_tie_cases"] = len(cases)
+    for i in bad[:3]:
+        _, rep, key, e_full, fterm = picked[i]
+        rc, out = H.coq_print_terms(run.pid, FILE_IMPORTS, [
+            "let '(data, path, _, o, l, _, _, _) := (%s) : %s in (scaled_read_eager data path, "
+            "scaled_window_eager data path o l, scaled_read_lazy data path (Z.of_nat o) (Some (Z.of_nat l)))"
+            % (fterm, FILE_CASE_T)], tag="fshow%d" % i)
+        run.violation("corr-file-" + key, "Coq file-level scaled read and npTDMS disagree (%s): implementation "
+                      "returned %r" % (key, e_full), rep, kind="correspondence-broken",
+                      theorem="Proofs.ScaleFile.scaled_read_eager/lazy vs TdmsChannel[:] / read_data",
+                      actual=repr(e_full), model=out[-3000:], no_input=True)
 
 
 # ---------------------------------------------------------------------------------------
@@ -543,7 +576,8 @@ def scale_calls(run, stats):
 
 def new_stats():
     return {"purity_checks": 0, "error_cases": 0, "table_within_2ulp": 0, "bit_exact": 0, "windows": 0,
-            "complex_oracle_only": 0, "scale_calls": 0, "scale_calls_raised": 0, "shapes": set()}
+            "complex_oracle_only": 0, "scale_calls": 0, "scale_calls_raised": 0, "shapes": set(),
+            "file_tie_cases": 0}
 
 
 def targeted_cases():
@@ -590,6 +624,7 @@ def main():
             t = run_case(run, case, stats)
             if t:
                 correspondence(run, [t])
+                file_correspondence(run, [t], stats)
         elif case.get("op") == "scale":
             scale_calls(run, stats)
         else:
@@ -614,6 +649,7 @@ def main():
         if t:
             terms.append(t)
     correspondence(run, terms)
+    file_correspondence(run, terms, stats)
     scale_calls(run, stats)
     run.cov["distinct_nontrivial"] = len(stats.pop("shapes"))
     run.cov["rule"] = ("distinct = (raw dtype, sequence of scale types, placement level, input-source wiring) of channels "
@@ -629,7 +665,9 @@ def main():
         "build, %d channel(s) accepted within 2 ulp" % stats["table_within_2ulp"],
         "NaN payloads and signs are not compared",
         "cyclic definitions (RecursionError) are outside the domain (wf_graph)",
-        "lazy == eager is checked on the implementation only (no reader model in this property)"]
+        "lazy == eager on BYTES is proved in Props/C13_file.v (plain channels; DAQmx: eager only) and the bridge "
+        "(bytes -> typed values, properties -> dictionaries, group-path lookup) is compared with npTDMS on the "
+        "first %d generated files (check_file_scaled)" % stats.get("file_tie_cases", 0)]
     run.finish()
 
 
